@@ -84,18 +84,24 @@ def run_impl(case):
                 elif kind == "delete_match":
                     await target.delete_match(case["pattern"])
                     out = [k for k in live if await mem.exists(k)]
-                else:
+                elif len(case["pattern"]) % 2:
                     @cache.invalidate("{x}")
                     async def f(x):
                         return 1
                     await f(x=case["pattern"])
+                    out = [k for k in live if await mem.exists(k)]
+                else:       # the pattern field has a default ('*') and is passed by keyword after another keyword argument
+                    @cache.invalidate("{x}")
+                    async def g(uid, x="*"):
+                        return 1
+                    await g(uid="1", x=case["pattern"])
                     out = [k for k in live if await mem.exists(k)]
                 return {"out": sorted(out), "err": None}
             roles = case["roles"]
             for k, r in roles.items():
                 if k in case.get("bits", ()): await mem.incr_bits(k, 0)
                 elif "B" in r:
-                    await mem.set(k, "v:" + k)
+                    await mem.set(k, ("old:" if "L" in r else "v:") + k)      # a key that is overwritten in the block holds another value in the store
             mode = TransactionMode.FAST if case["mode"] == "fast" else TransactionMode.LOCKED
             async with cache.transaction(mode=mode):
                 for k, r in roles.items():
